@@ -148,6 +148,36 @@ theorem active_values_sum_one (t : ℕ → K) (n p : ℕ) (u : K) (hn : 2 * p + 
   rw [activeDeriv_row0 t n p u 0 hs.1, sum_map_range]
   exact N_partition_of_unity t _ n u hmono hs.2.2.1 p hs.1 (by omega)
 
+/-! ## the single-function route -/
+
+/-- **single_ev_eq_cox**: `_bspline_single_ev_single(kv, i, u)` — the in-place triangular table with
+its `N[j+1] == 0.0` short cuts — returns the right-continuous Cox-de Boor value `N_{i,p}(u)`, for every
+degree, every non-decreasing knot sequence, every `u` (inside or outside the support), except at the two
+hard-wired boundary cases treated by `single_ev_boundary`. -/
+theorem single_ev_eq_cox (t : ℕ → K) (N m p i : ℕ) (u : K) (hmono : Mono t N) (hi : i + p + 1 < N)
+    (hb : ¬ ((i = 0 ∧ u = t 0) ∨ (i = m - p - 2 ∧ u = t (m - 1)))) :
+    singleEv t m p i u = cox t u p i := by
+  unfold singleEv
+  rw [if_neg hb]
+  by_cases hout : u < t i ∨ u ≥ t (i + p + 1)
+  · rw [if_pos hout]
+    exact (cox_support t N u hmono p i hi hout).symm
+  · rw [if_neg hout]
+    apply singleOuter_spec t i p u p 1 _ (by omega) (le_refl _) (by simp)
+    intro x hx
+    rw [getD_map_range _ _ _ (by omega)]
+    simp [cox, ge_iff_le]
+
+/-- the two hard-wired cases: first function at the left end, last function at the right end
+(value 1 = the left-continuous value, cf. `coxS_right_end`) -/
+theorem single_ev_boundary (t : ℕ → K) (m p i : ℕ) (u : K)
+    (h : (i = 0 ∧ u = t 0) ∨ (i = m - p - 2 ∧ u = t (m - 1))) : singleEv t m p i u = 1 := by
+  unfold singleEv
+  rw [if_pos h]
+
+example : singleEv (fun i => getK ([0, 0, 0, 1/2, 1, 1, 1] : List ℚ) i) 7 2 1 (1/4) = 5/8 := by
+  decide +kernel
+
 /-! ## derivative rows -/
 
 /-- full statement (all derivative orders): row `k` of the A2.3 result is the `k`-th derivative
